@@ -54,6 +54,8 @@ impl JoinedTableData {
             .map_err(|err| ExecutionError::FailOpenFile(format!("{}", err)))?;
 
         for (line_number, line) in BufReader::new(joined_file).lines().enumerate() {
+            #[cfg(feature="verif_hooks")]
+            crate::verif_hooks::point(crate::verif_hooks::Point::JoinLoadLine);
             if line_number > 0 && line_number % 10 == 0 {
                 if !running.load(Ordering::SeqCst) {
                     break;
